@@ -37,7 +37,8 @@ const (
 
 var opNames = []string{"Set", "SetDefault", "Update", "Get", "Delete", "Flush", "DeleteExpired", "Count", "List", "MapToCache", "IsExpired", "Advance"}
 
-var keys = []string{"a", "b", "c"}
+// the second key is the empty string: a legitimate key of a map with string keys, and the one a `len(key) == 0` / "no key" shortcut would confuse with absence
+var keys = []string{"a", "", "c"}
 
 // durations an operation can ask for
 const (
@@ -92,16 +93,16 @@ func (o Op) String() string {
 	}
 	switch o.Kind {
 	case opSet, opUpdate:
-		return fmt.Sprintf("%s(%s,%s,%s)", opNames[o.Kind], keys[o.Key], v, durNames[o.Dur])
+		return fmt.Sprintf("%s(%q,%s,%s)", opNames[o.Kind], keys[o.Key], v, durNames[o.Dur])
 	case opSetDefault:
-		return fmt.Sprintf("SetDefault(%s,%s)", keys[o.Key], v)
+		return fmt.Sprintf("SetDefault(%q,%s)", keys[o.Key], v)
 	case opGet, opDelete, opIsExpired:
-		return fmt.Sprintf("%s(%s)", opNames[o.Kind], keys[o.Key])
+		return fmt.Sprintf("%s(%q)", opNames[o.Kind], keys[o.Key])
 	case opMapToCache:
 		var ks []string
 		for i, k := range keys {
 			if o.Key&(1<<i) != 0 {
-				ks = append(ks, k)
+				ks = append(ks, fmt.Sprintf("%q", k))
 			}
 		}
 		return fmt.Sprintf("MapToCache({%s},%s,%s)", strings.Join(ks, ","), v, durNames[o.Dur])
@@ -142,7 +143,7 @@ func enumOp(s pbt.Src) Op {
 		{1, func(i int) Op { return Op{Kind: opDeleteExpired} }},
 		{1, func(i int) Op { return Op{Kind: opCount} }},
 		{1, func(i int) Op { return Op{Kind: opList} }},
-		{8, func(i int) Op { return Op{Kind: opMapToCache, Key: 1 + 2*(i%2), Val: (i / 2) % 2, Dur: i / 4} }},
+		{8, func(i int) Op { return Op{Kind: opMapToCache, Key: 2 + i%2, Val: (i / 2) % 2, Dur: i / 4} }},
 		{nAdv, func(i int) Op { return Op{Kind: opAdvance, Arg: i} }},
 	}
 	total := 0
@@ -232,7 +233,7 @@ func outOfEnum(c Case, thorough bool) bool {
 		return true
 	}
 	for _, o := range c.Ops {
-		if o.Dur == durLong || o.Dur == durHuge || (o.Kind != opMapToCache && o.Key == 2) || (o.Kind == opMapToCache && o.Key != 1 && o.Key != 3) {
+		if o.Dur == durLong || o.Dur == durHuge || (o.Kind != opMapToCache && o.Key == 2) || (o.Kind == opMapToCache && o.Key != 2 && o.Key != 3) {
 			return true
 		}
 	}
@@ -924,7 +925,7 @@ func TestProp(t *testing.T) {
 			Rule: "call sequences on cache.New[string,string](default in {-1,0,50ms}; random cases also -1s and the most negative Duration, which mean never-expires too; cleanup in {0,20ms}) inside a synctest bubble (virtual clock) against a map-with-deadlines model; " +
 				"operations Set/SetDefault/Update (fresh or rejected empty value; duration default/10ms/none/1h, random cases also the largest Duration, whose deadline is not representable), Get, Delete, Flush, DeleteExpired, Count, List, MapToCache, IsExpired and " +
 				"Advance to {next deadline-1ns, deadline, deadline+1ns, next cleanup tick, 1ms, 200ms}; Count/List are checked after every step, every key is read at the end and after a final 200ms. " +
-				"Enumerated: every sequence up to length 3 (thorough 4) over a 50-operation alphabet (2 keys) for all 6 configurations; random: up to 30 (60) operations over 3 keys. " +
+				"Enumerated: every sequence up to length 3 (thorough 4) over a 50-operation alphabet (2 keys: a and the empty string, which is a key like any other; bulk loads of the empty key alone and of both keys) for all 6 configurations; random: up to 30 (60) operations over 3 keys. " +
 				"Non-trivial = an observation separated from its store by a deadline crossing, a store over an expired key, a DeleteExpired that purges, a cleanup tick with both expired and live entries, or IsExpired answering true. " +
 				"Lenient where the statement is open: exactly at the deadline either answer; Count/List may include expired-but-unpurged entries; cleanup must have removed an entry after two ticks past its deadline.",
 			Enum: enum, Gen: gen, Prop: prop, OutOfEnum: outOfEnum,
